@@ -100,7 +100,8 @@ func RunProfile(profile, tier string, seed int64, out string, shards int, script
 		return st, err
 	case "quant", "floatfix", "fixfloat", "floatfloat", "depth", "freq":
 		return runNumProfile(profile, thorough, seed, out, shards)
-	case "poolseq", "poolforeign", "poolconc", "poolcycle", "poolzero":
+	case "poolseq", "poolforeign", "poolconc", "poolcycle", "poolzero", "poolscript":
+		PoolScriptFile = script
 		return runPoolProfile(profile, thorough, seed, out)
 	case "hist":
 		s, err := newShards(out, profile, shards)
